@@ -387,14 +387,27 @@ func runVerdict(b []byte) (verdict string) {
 			}
 		}
 	}()
-	// executing a well-decoded CATCH/CROAK whose flag lies beyond the state's flag count panics in state.GetFlag: an
-	// execution matter (C08: flags in range), not a decoding one -> such strings are not run
-	if d, _ := decode(b); true {
-		for _, in := range d {
-			if (in.Op == "CATCH" || in.Op == "CROAK") && (in.N >= 16 || in.N < 0) {
+	// Executing a CATCH/CROAK whose flag lies beyond the state's flag count panics in state.GetFlag: an execution matter
+	// (C08: flags in range), not a decoding one.  Because the VM appends fetched code to the pending buffer before it decodes
+	// the next instruction, even a CATCH/CROAK that is truncated in this string can be completed by appended bytes; so strings
+	// in which the harness's own scan meets a CATCH/CROAK whose flag is not a small in-range number are not run.
+	for rest := b; len(rest) >= 2; {
+		op := int(rest[0])<<8 | int(rest[1])
+		d, _ := decode(rest)
+		if op == 1 || op == 2 {
+			if len(d) == 0 || d[0].N >= 16 || d[0].N < 0 {
 				return "skipped"
 			}
 		}
+		if len(d) == 0 {
+			break
+		}
+		// advance by the encoded length of the first instruction
+		n := instrLen(rest)
+		if n <= 0 || n > len(rest) {
+			break
+		}
+		rest = rest[n:]
 	}
 	st := state.NewState(8)
 	st.Down("root")
@@ -412,6 +425,43 @@ func runVerdict(b []byte) (verdict string) {
 		return "err"
 	}
 	return "ok"
+}
+
+// instrLen is the byte length of the first instruction of b per the format (0 if it is not complete).
+func instrLen(b []byte) (n int) {
+	defer func() {
+		if r := recover(); r != nil {
+			n = 0
+		}
+	}()
+	op := int(b[0])<<8 | int(b[1])
+	i := 2
+	sym := func() { i += 1 + int(b[i]) }
+	num := func() { i += 1 + int(b[i]) }
+	switch shapes[op] {
+	case "sym":
+		sym()
+	case "symsym":
+		sym()
+		sym()
+	case "symint":
+		sym()
+		num()
+	case "symintmode":
+		sym()
+		num()
+		i++
+	case "intmode":
+		num()
+		i++
+	case "none":
+	default:
+		return 0
+	}
+	if i > len(b) {
+		return 0
+	}
+	return i
 }
 
 type decEvent struct {
